@@ -23,10 +23,10 @@ theorem nodots_step (p : P) (hd : NoDots p) (i : Nat) (hlt : i < p.length) :
   exact ⟨hc.1, hc.2, (List.take_succ_eq_append_getElem hlt).symm⟩
 
 /-- resolution of a path all of whose proper prefixes are directories: a look-up of the path itself -/
-theorem walk_lex_aux (fs : FS) (fl : Bool) (p : P) (hd : NoDots p) (hall : AllDirs fs p)
+theorem walk_lex_aux (fs : FS) (fl : Bool) (lk : Nat) (p : P) (hd : NoDots p) (hall : AllDirs fs p)
     (hlast : fl = true → ∀ t, fs.get p ≠ some (.symlink t)) :
     ∀ (fuel i : Nat), i < p.length → p.length - i + 1 ≤ fuel →
-      walk fs fl fuel (p.take i) (p.drop i) = lexRes fs p := by
+      walk fs fl lk fuel (p.take i) (p.drop i) = lexRes fs p := by
   intro fuel
   induction fuel with
   | zero => intro i _ h; omega
@@ -64,24 +64,24 @@ theorem walk_lex_aux (fs : FS) (fl : Bool) (p : P) (hd : NoDots p) (hall : AllDi
       simp only
       exact ih (i + 1) hlt' (by omega)
 
-theorem walk_lex (fs : FS) (fl : Bool) (p : P) (hne : p ≠ []) (hd : NoDots p) (hall : AllDirs fs p)
+theorem walk_lex (fs : FS) (fl : Bool) (lk : Nat) (p : P) (hne : p ≠ []) (hd : NoDots p) (hall : AllDirs fs p)
     (hlast : fl = true → ∀ t, fs.get p ≠ some (.symlink t)) (fuel : Nat) (hf : p.length + 1 ≤ fuel) :
-    walk fs fl fuel [] p = lexRes fs p := by
-  have := walk_lex_aux fs fl p hd hall hlast fuel 0 (List.length_pos_iff.mpr hne) (by omega)
+    walk fs fl lk fuel [] p = lexRes fs p := by
+  have := walk_lex_aux fs fl lk p hd hall hlast fuel 0 (List.length_pos_iff.mpr hne) (by omega)
   simpa using this
 
 theorem lstatR_lex (fs : FS) (p : P) (hne : p ≠ []) (hd : NoDots p) (hall : AllDirs fs p) :
     lstatR fs p = lexRes fs p :=
-  walk_lex fs false p hne hd hall (fun h => by cases h) _ (by unfold walkFuel; omega)
+  walk_lex fs false maxLinks p hne hd hall (fun h => by cases h) _ (by unfold walkFuel; omega)
 
 theorem statR_lex (fs : FS) (p : P) (hne : p ≠ []) (hd : NoDots p) (hall : AllDirs fs p)
     (hlast : ∀ t, fs.get p ≠ some (.symlink t)) : statR fs p = lexRes fs p :=
-  walk_lex fs true p hne hd hall (fun _ => hlast) _ (by unfold walkFuel; omega)
+  walk_lex fs true maxLinks p hne hd hall (fun _ => hlast) _ (by unfold walkFuel; omega)
 
 /-- a missing component in the middle: `ENOENT` -/
-theorem walk_enoent_aux (fs : FS) (fl : Bool) (p : P) (hd : NoDots p) (j0 : Nat) (h0 : j0 < p.length)
+theorem walk_enoent_aux (fs : FS) (fl : Bool) (lk : Nat) (p : P) (hd : NoDots p) (j0 : Nat) (h0 : j0 < p.length)
     (hnone : fs.get (p.take j0) = none) (hdirs : ∀ j, j < j0 → ∃ m, fs.get (p.take j) = some (.dir m)) :
-    ∀ (fuel i : Nat), i ≤ j0 → j0 - i + 1 ≤ fuel → walk fs fl fuel (p.take i) (p.drop i) = .err .enoent := by
+    ∀ (fuel i : Nat), i ≤ j0 → j0 - i + 1 ≤ fuel → walk fs fl lk fuel (p.take i) (p.drop i) = .err .enoent := by
   intro fuel
   induction fuel with
   | zero => intro i _ h; omega
@@ -109,9 +109,9 @@ theorem walk_enoent_aux (fs : FS) (fl : Bool) (p : P) (hd : NoDots p) (j0 : Nat)
         exact ih (i + 1) (by omega) (by omega)
 
 /-- a regular file in the middle: `ENOTDIR` -/
-theorem walk_enotdir_aux (fs : FS) (fl : Bool) (p : P) (hd : NoDots p) (j0 : Nat) (h0 : j0 < p.length) (k : Nat)
+theorem walk_enotdir_aux (fs : FS) (fl : Bool) (lk : Nat) (p : P) (hd : NoDots p) (j0 : Nat) (h0 : j0 < p.length) (k : Nat)
     (hfile : fs.get (p.take j0) = some (.file k)) (hdirs : ∀ j, j < j0 → ∃ m, fs.get (p.take j) = some (.dir m)) :
-    ∀ (fuel i : Nat), i ≤ j0 → j0 - i + 1 ≤ fuel → walk fs fl fuel (p.take i) (p.drop i) = .err .enotdir := by
+    ∀ (fuel i : Nat), i ≤ j0 → j0 - i + 1 ≤ fuel → walk fs fl lk fuel (p.take i) (p.drop i) = .err .enotdir := by
   intro fuel
   induction fuel with
   | zero => intro i _ h; omega
@@ -141,19 +141,19 @@ theorem walk_enotdir_aux (fs : FS) (fl : Bool) (p : P) (hd : NoDots p) (j0 : Nat
 theorem lstatR_enoent (fs : FS) (p : P) (hd : NoDots p) (j0 : Nat) (h0 : j0 < p.length)
     (hnone : fs.get (p.take j0) = none) (hdirs : ∀ j, j < j0 → ∃ m, fs.get (p.take j) = some (.dir m)) :
     lstatR fs p = .err .enoent := by
-  have := walk_enoent_aux fs false p hd j0 h0 hnone hdirs (walkFuel p) 0 (by omega) (by unfold walkFuel; omega)
+  have := walk_enoent_aux fs false maxLinks p hd j0 h0 hnone hdirs (walkFuel p) 0 (by omega) (by unfold walkFuel; omega)
   simpa [lstatR] using this
 
 theorem lstatR_enotdir (fs : FS) (p : P) (hd : NoDots p) (j0 : Nat) (h0 : j0 < p.length) (k : Nat)
     (hfile : fs.get (p.take j0) = some (.file k)) (hdirs : ∀ j, j < j0 → ∃ m, fs.get (p.take j) = some (.dir m)) :
     lstatR fs p = .err .enotdir := by
-  have := walk_enotdir_aux fs false p hd j0 h0 k hfile hdirs (walkFuel p) 0 (by omega) (by unfold walkFuel; omega)
+  have := walk_enotdir_aux fs false maxLinks p hd j0 h0 k hfile hdirs (walkFuel p) 0 (by omega) (by unfold walkFuel; omega)
   simpa [lstatR] using this
 
 /-- if no component of `p` is a symbolic link, resolution can only find `p` itself -/
-theorem walk_found_inv_aux (fs : FS) (fl : Bool) (p : P) (hd : NoDots p)
+theorem walk_found_inv_aux (fs : FS) (fl : Bool) (lk : Nat) (p : P) (hd : NoDots p)
     (hns : ∀ j, 1 ≤ j → j ≤ p.length → ∀ t, fs.get (p.take j) ≠ some (.symlink t)) :
-    ∀ (fuel i : Nat) (q : P) (n : Nd), i ≤ p.length → walk fs fl fuel (p.take i) (p.drop i) = .found q n →
+    ∀ (fuel i : Nat) (q : P) (n : Nd), i ≤ p.length → walk fs fl lk fuel (p.take i) (p.drop i) = .found q n →
       q = p ∧ fs.get p = some n := by
   intro fuel
   induction fuel with
@@ -201,10 +201,10 @@ theorem walk_found_inv_aux (fs : FS) (fl : Bool) (p : P) (hd : NoDots p)
               rw [hg'] at h; simp only at h
               exact ih (i + 1) q n (by omega) h
 
-theorem walk_found_inv (fs : FS) (fl : Bool) (p : P) (hd : NoDots p)
+theorem walk_found_inv (fs : FS) (fl : Bool) (lk : Nat) (p : P) (hd : NoDots p)
     (hns : ∀ j, 1 ≤ j → j ≤ p.length → ∀ t, fs.get (p.take j) ≠ some (.symlink t)) (fuel : Nat) (q : P) (n : Nd)
-    (h : walk fs fl fuel [] p = .found q n) : q = p ∧ fs.get p = some n := by
-  have := walk_found_inv_aux fs fl p hd hns fuel 0 q n (by omega) (by simpa using h)
+    (h : walk fs fl lk fuel [] p = .found q n) : q = p ∧ fs.get p = some n := by
+  have := walk_found_inv_aux fs fl lk p hd hns fuel 0 q n (by omega) (by simpa using h)
   exact this
 
 /-! ### the primitives at a path without links are the lexical ones -/
@@ -276,7 +276,7 @@ theorem linkR_eq (fs : FS) (hw : WF fs) (hs : ∃ m, fs.get [] = some (.dir m)) 
     simp only
     cases ht : lstatR fs tgt with
     | found q n =>
-      have := walk_found_inv fs false tgt htd hns _ q n ht
+      have := walk_found_inv fs false _ tgt htd hns _ q n ht
       rw [hg] at this; cases this.2
     | missing q => rfl
     | err e => rfl
@@ -391,7 +391,7 @@ theorem mkdirAllR_eq (fs : FS) (hw : WF fs) (hs : ∃ m, fs.get [] = some (.dir 
       | none =>
         have hnf : ∀ q n, statR fs p ≠ .found q n := by
           intro q n h
-          have := walk_found_inv fs true p hd hns _ q n h
+          have := walk_found_inv fs true _ p hd hns _ q n h
           rw [hg] at this; cases this.2
         have hbranch : mkdirAllR fs mode (k + 1) p =
             match mkdirAllR fs mode k p.dropLast with
